@@ -506,6 +506,13 @@ func drawPre(r *Rng, cfg SpecConfig, m *ModuleSpec) {
 			add(j(base+".crds/widget.yaml"), "kind: Widget\n")
 			add(j(base+".crds/README"), "artefacts kept next to the generated code\n")
 		}
+		if r.P(0.2) {
+			// a directory whose name reads like an output FILE (legal: the go tool ignores directories whatever
+			// they are called): fixtures kept in it are user files, at any depth
+			n := base + "." + Pick(r, []string{"golden", "fixtures", "want"}) + ".go"
+			add(j(n+"/expected.txt"), "expected output, kept by hand\n")
+			add(j(n+"/more/nested.json"), "{\"kept\": true}\n")
+		}
 		if r.P(0.3) {
 			// what a killed earlier run may have left behind: a long, stale temporary output
 			g := Pick(r, cfg.GenNames)
